@@ -50,6 +50,9 @@ func (c *fctx) outObjs() []types.Object {
 	if c.recv != nil {
 		os = append(os, c.recv)
 	}
+	if c.closure {
+		return os
+	}
 	sig := c.info.Defs[c.fd.Name].Type().(*types.Signature)
 	for i := 0; i < sig.Params().Len(); i++ {
 		p := sig.Params().At(i)
@@ -304,6 +307,10 @@ func (c *fctx) modified(nodes []ast.Stmt) []types.Object {
 func (c *fctx) callEffects(x *ast.CallExpr, add func(types.Object)) {
 	if id, ok := x.Fun.(*ast.Ident); ok {
 		if cb, ok := c.cbs[c.info.Uses[id]]; ok {
+			if cb.kind == "recv0" || cb.kind == "recv1" {
+				add(c.recv)
+				return
+			}
 			if cb.kind != "source" {
 				add(c.state)
 			}
@@ -332,7 +339,7 @@ func (c *fctx) callEffects(x *ast.CallExpr, add func(types.Object)) {
 			add(c.rootObj(a))
 		}
 	}
-	if len(f.callbacks) > 0 {
+	if f.needsState() {
 		add(c.state)
 	}
 }
@@ -382,6 +389,13 @@ func (c *fctx) stmts(list []ast.Stmt, k *cont, n int) (string, error) {
 		if !ok {
 			return "", fmt.Errorf("unsupported expression statement")
 		}
+		if out, ok, err := c.bufStmt(call, n); ok || err != nil {
+			if err != nil {
+				return "", err
+			}
+			r, err := c.stmts(rest, k, n)
+			return out + r, err
+		}
 		out, _, err := c.callStmt(call, n)
 		if err != nil {
 			return "", err
@@ -401,16 +415,12 @@ func (c *fctx) stmts(list []ast.Stmt, k *cont, n int) (string, error) {
 			return "", fmt.Errorf("return of a multi-value call not supported")
 		}
 		for i, r := range x.Results {
-			if call, ok := stripParens(r).(*ast.CallExpr); ok && len(x.Results) == 1 {
-				if q, _ := c.calleeName(call); q != "" {
-					if f, ok := c.g.fns[q]; ok && !f.pure {
-						out, val, err := c.callStmt(call, n)
-						if err != nil {
-							return "", err
-						}
-						return out + c.emitReturn([]string{val}, n), nil
-					}
+			if call, ok := stripParens(r).(*ast.CallExpr); ok && len(x.Results) == 1 && c.isStateCall(call) {
+				out, val, err := c.callStmt(call, n)
+				if err != nil {
+					return "", err
 				}
+				return out + c.emitReturn([]string{val}, n), nil
 			}
 			var v lx
 			var err error
@@ -538,6 +548,9 @@ func (c *fctx) setLvalue(lhs ast.Expr, val string, n int) (string, error) {
 		if !ok {
 			return "", fmt.Errorf("field %s not in the model's structure", x.Sel.Name)
 		}
+		if path == "" {
+			return c.setLvalue(x.X, val, n)
+		}
 		// { b with p1 := { b.p1 with p2 := val } }
 		parts := strings.Split(path, ".")
 		upd := val
@@ -645,18 +658,14 @@ func (c *fctx) assign(x *ast.AssignStmt, n int) (string, error) {
 	// parallel assignment: evaluate all right-hand sides first
 	vals := make([]string, len(x.Rhs))
 	for i, r := range x.Rhs {
-		if call, ok := stripParens(r).(*ast.CallExpr); ok && len(x.Rhs) == 1 {
-			if q, _ := c.calleeName(call); q != "" {
-				if f, ok := c.g.fns[q]; ok && !f.pure {
-					out, val, err := c.callStmt(call, n)
-					if err != nil {
-						return "", err
-					}
-					b.WriteString(out)
-					vals[i] = val
-					continue
-				}
+		if call, ok := stripParens(r).(*ast.CallExpr); ok && len(x.Rhs) == 1 && c.isStateCall(call) {
+			out, val, err := c.callStmt(call, n)
+			if err != nil {
+				return "", err
 			}
+			b.WriteString(out)
+			vals[i] = val
+			continue
 		}
 		v, err := c.expr(r)
 		if err != nil {
@@ -695,6 +704,17 @@ func (c *fctx) callStmt(x *ast.CallExpr, n int) (string, string, error) {
 			fname := c.names[c.info.Uses[id]]
 			st := c.names[c.state]
 			switch cb.kind {
+			case "recv0", "recv1":
+				rn := c.names[c.recv]
+				sig := c.info.Uses[id].Type().Underlying().(*types.Signature)
+				b.WriteString(c.flush(n))
+				if sig.Results().Len() == 0 {
+					b.WriteString(fmt.Sprintf("%slet %s ← %s %s\n", ind(n), rn, fname, rn))
+					return b.String(), "", nil
+				}
+				r := c.fresh("r")
+				b.WriteString(fmt.Sprintf("%slet (%s, %s) ← %s %s\n", ind(n), rn, r, fname, rn))
+				return b.String(), r, nil
 			case "state":
 				o := c.rootObj(x.Args[0])
 				if o == nil || len(x.Args) != 1 {
@@ -758,10 +778,22 @@ func (c *fctx) callStmt(x *ast.CallExpr, n int) (string, string, error) {
 	for i, a := range x.Args {
 		pt := sig.Params().At(i).Type()
 		if _, isFn := pt.Underlying().(*types.Signature); isFn {
+			if fl, ok := a.(*ast.FuncLit); ok {
+				cb, ok := f.callbacks[sig.Params().At(i).Name()]
+				if !ok || (cb.kind != "recv0" && cb.kind != "recv1") {
+					return "", "", fmt.Errorf("function literal for a callback of unsupported kind at %s", fset.Position(a.Pos()))
+				}
+				lam, err := c.closureLit(fl, n+1)
+				if err != nil {
+					return "", "", err
+				}
+				args = append(args, lam)
+				continue
+			}
 			id, ok := a.(*ast.Ident)
 			if !ok {
 				// method value like msg.Decode is not supported here
-				return "", "", fmt.Errorf("function-literal / method-value argument not supported at %s", fset.Position(a.Pos()))
+				return "", "", fmt.Errorf("method-value argument not supported at %s", fset.Position(a.Pos()))
 			}
 			args = append(args, c.names[c.info.Uses[id]])
 			continue
@@ -785,7 +817,7 @@ func (c *fctx) callStmt(x *ast.CallExpr, n int) (string, string, error) {
 		args = append(args, recvArg)
 	}
 	args = append(args, ptrArgs...)
-	if len(f.callbacks) > 0 {
+	if f.needsState() {
 		args = append(args, c.names[c.state])
 		outs = append(outs, c.names[c.state])
 	}
@@ -807,6 +839,9 @@ func (c *fctx) callStmt(x *ast.CallExpr, n int) (string, string, error) {
 	if nres > 0 {
 		resName = c.fresh("r")
 		outs = append(outs, resName)
+	}
+	if f.extraArgs != "" {
+		args = append([]string{f.extraArgs}, args...)
 	}
 	call := f.lean + " " + strings.Join(args, " ")
 	if f.pure {
@@ -967,4 +1002,115 @@ func (c *fctx) switchStmt(x *ast.SwitchStmt, rest []ast.Stmt, k, restK *cont, n 
 		}
 	}
 	return c.stmts(append([]ast.Stmt{chain}, rest...), k, n)
+}
+
+// bufStmt recognises the two in-place operations on a written slice:
+//   copy(buf[dst:], buf[src:])            ->  buf ← GoBuf.copyWithin buf dst src
+//   protowire.PutUvarint(buf[lo:hi], x)   ->  buf ← GoBuf.putUvarintAt buf lo hi x
+func (c *fctx) bufStmt(call *ast.CallExpr, n int) (string, bool, error) {
+	sliceOfBuf := func(e ast.Expr) (*ast.SliceExpr, lx, bool) {
+		se, ok := stripParens(e).(*ast.SliceExpr)
+		if !ok {
+			return nil, lx{}, false
+		}
+		npre := len(c.pre)
+		b, err := c.expr(se.X)
+		if err != nil || b.t.k != kBuf || len(c.pre) != npre {
+			c.pre = c.pre[:npre]
+			return nil, lx{}, false
+		}
+		return se, b, true
+	}
+	if id, ok := call.Fun.(*ast.Ident); ok && id.Name == "copy" && len(call.Args) == 2 {
+		d, db, ok1 := sliceOfBuf(call.Args[0])
+		s, sb, ok2 := sliceOfBuf(call.Args[1])
+		if !ok1 && !ok2 {
+			return "", false, nil
+		}
+		if !ok1 || !ok2 || db.s != sb.s || d.Low == nil || d.High != nil || s.Low == nil || s.High != nil {
+			return "", true, fmt.Errorf("unsupported copy on a written slice")
+		}
+		dl, err := c.intExpr(d.Low)
+		if err != nil {
+			return "", true, err
+		}
+		sl, err := c.intExpr(s.Low)
+		if err != nil {
+			return "", true, err
+		}
+		t := c.hoist(fmt.Sprintf("Pico.GoBuf.copyWithin %s %s %s", db.s, dl, sl))
+		pre := c.flush(n)
+		out, err := c.setLvalue(d.X, t, n)
+		return pre + out, true, err
+	}
+	if q, _ := c.calleeName(call); q == qualName(pwPkg, "PutUvarint") && len(call.Args) == 2 {
+		w, wb, ok := sliceOfBuf(call.Args[0])
+		if !ok {
+			return "", true, fmt.Errorf("PutUvarint into something that is not a window of a written slice")
+		}
+		if w.Low == nil || w.High == nil {
+			return "", true, fmt.Errorf("PutUvarint window must be buf[lo:hi]")
+		}
+		lo, err := c.intExpr(w.Low)
+		if err != nil {
+			return "", true, err
+		}
+		hi, err := c.intExpr(w.High)
+		if err != nil {
+			return "", true, err
+		}
+		v, err := c.expr(call.Args[1])
+		if err != nil {
+			return "", true, err
+		}
+		t := c.hoist(fmt.Sprintf("Pico.GoBuf.putUvarintAt %s %s %s %s", wb.s, lo, hi, paren(v.s)))
+		pre := c.flush(n)
+		out, err := c.setLvalue(w.X, t, n)
+		return pre + out, true, err
+	}
+	return "", false, nil
+}
+
+// isStateCall: must the call be translated at statement level (it threads state)?
+func (c *fctx) isStateCall(call *ast.CallExpr) bool {
+	if id, ok := call.Fun.(*ast.Ident); ok {
+		if cb, ok := c.cbs[c.info.Uses[id]]; ok {
+			return cb.kind != "source"
+		}
+	}
+	if q, _ := c.calleeName(call); q != "" {
+		if f, ok := c.g.fns[q]; ok && !f.pure {
+			return true
+		}
+	}
+	return false
+}
+
+// closureLit translates a function literal that captures the receiver (`func() bool { return fn(enc) }`)
+// into a Lean lambda over the receiver's state.
+func (c *fctx) closureLit(fl *ast.FuncLit, n int) (string, error) {
+	if c.recv == nil {
+		return "", fmt.Errorf("function literal outside a method")
+	}
+	sig := c.info.Types[fl].Type.(*types.Signature)
+	if sig.Params().Len() != 0 {
+		return "", fmt.Errorf("function literal with parameters not supported")
+	}
+	savedRes, savedLoops, savedClosure, savedPre := c.res, c.loops, c.closure, c.pre
+	snapNames := c.snapshot()
+	c.res, c.loops, c.closure, c.pre = nil, nil, true, nil
+	for i := 0; i < sig.Results().Len(); i++ {
+		t, err := c.g.ltypeOf(sig.Results().At(i).Type())
+		if err != nil {
+			return "", err
+		}
+		c.res = append(c.res, t)
+	}
+	body, err := c.stmts(fl.Body.List, &cont{kind: "fnend"}, n+1)
+	c.res, c.loops, c.closure, c.pre = savedRes, savedLoops, savedClosure, savedPre
+	c.restore(snapNames)
+	if err != nil {
+		return "", err
+	}
+	return "(fun " + c.names[c.recv] + " => do\n" + body + ind(n) + ")", nil
 }
